@@ -144,6 +144,16 @@ def fixed_cases():
     out.append({"cls": "vertica", "stmt": "select", "calls": [sel, {"kind": "hint", "src": ".hint('lbl')", "id": 0}, wh, j_al, ob], "seed": 5, "all": True})
     for cls in ("generic", "mysql", "snowflake", "oracle"):
         out.append({"cls": cls, "stmt": "select", "calls": [sel, j_al, ob, gb, wh], "seed": 6, "all": True})
+    # one criterion OBJECT given to several calls (a filter kept in a variable and reused): every call still adds its conjunct
+    env = {"crit1": "(T('t').f1 == 1)", "crit2": "(T('t').f2 == 2)"}
+    w1 = {"kind": "where", "src": ".where(crit1)", "id": 1, "tabs": ["t"]}
+    w12 = {"kind": "where", "src": ".where(crit1 | crit2)", "id": 2, "tabs": ["t"]}
+    wn = {"kind": "where", "src": ".where(crit1.negate())", "id": 1, "tabs": ["t"]}
+    h1 = {"kind": "having", "src": ".having(crit1)", "id": 1}
+    for cls in ("generic", "postgresql", "clickhouse"):
+        out.append({"cls": cls, "stmt": "select", "calls": [sel, w1, dict(w1), ob], "seed": 7, "all": True, "env": env})
+        out.append({"cls": cls, "stmt": "select", "calls": [sel, w12, w1, j_pl], "seed": 8, "all": True, "env": env})
+        out.append({"cls": cls, "stmt": "select", "calls": [sel, wn, w1, gb, h1, dict(h1)], "seed": 9, "all": True, "env": env})
     return out
 
 
@@ -258,17 +268,19 @@ def examine(case):
         shared = ns.ev(h)
     except Exception:
         shared = None
+    extra = {k: ns.ev(v) for k, v in case.get("env", {}).items()}     # objects shared by several calls of the case
+    prelude = "".join("%s = %s\n" % kv for kv in case.get("env", {}).items())
     for order in interleavings(calls, rng, None if case.get("all") else 12):
         src = h + "".join(calls[i]["src"] for i in order)
         try:
-            q = ns.ev("base_" + "".join(calls[i]["src"] for i in order), {"base_": shared}) if shared is not None else ns.ev(src)
+            q = ns.ev("base_" + "".join(calls[i]["src"] for i in order), dict(extra, base_=shared)) if shared is not None else ns.ev(src, extra)
             text = str(q)
         except Exception as e:
             text = "raises %s" % type(e).__name__
             q = None
         if first is None:
             first = (src, text, q)
-            case["recipe"] = src
+            case["recipe"] = prelude + src
         texts.setdefault(text, src)
     if len(texts) > 1:
         (t1, s1), (t2, s2) = list(texts.items())[:2]
@@ -310,6 +322,16 @@ def examine(case):
         mcalls.append(m)
     exp = slots_of(q, ids)
     if exp is not None:
+        # repeated calls of one kind accumulate in call order (where / prewhere / having by AND): read off the implementation
+        # directly — every call's identifier is there, in the order of the calls (the first interleaving is the given order)
+        for kind, slot in (("where", "wheres"), ("prewhere", "prewheres"), ("having", "havings"), ("orderby", "orderbys"),
+                           ("groupby", "groupbys")):
+            want = [c["id"] for c in calls if c["kind"] == kind]
+            if want and exp.get(slot) != want:
+                res.findings.append({"sig": {"kind": "not-accumulated", "clause": kind, "cls": case["cls"]},
+                                     "what": "the %d %s() calls carry %s in call order; the statement holds %s: %s\n%s"
+                                             % (len(want), kind, want, exp.get(slot), text, case.get("recipe"))})
+                break
         req = {"op": "build", "calls": mcalls, "froms": [0] if case["stmt"] == "select" else [],
                "update_table": 0 if case["stmt"] == "update" else None}
         res.requests.append((req, exp, "slots after the calls"))
